@@ -53,6 +53,26 @@ from . import c01_classes_twin as _twin     # noqa: E402  (imported after the cl
 CLASSES.update(_twin.CLASSES)
 
 
+class HybridNet(torch.nn.Module, AutoSerialize):
+    """nn.Module + AutoSerialize hybrid (the pattern of quantem's ObjectBase / ProbeBase / dataset classes and of
+    tests/datastructures/test_autoserialize.py::TestModule): sub-modules, parameters and buffers are real attributes
+    (hasattr / getattr / delattr) that torch keeps in the _modules / _parameters / _buffers registries, next to
+    plain attributes in __dict__.  The harness fills instances attribute by attribute (impl_C01.build, kind "hyb")."""
+
+    def __init__(self):
+        super().__init__()
+
+
+class HybridNetB(AutoSerialize, torch.nn.Module):
+    """the other base order"""
+
+    def __init__(self):
+        torch.nn.Module.__init__(self)
+
+
+CLASSES.update({"HybridNet": HybridNet, "HybridNetB": HybridNetB})
+
+
 class TinyNet(torch.nn.Module):
     def __init__(self, n_in=2, n_out=1, buf=True):
         super().__init__()
